@@ -21,3 +21,6 @@ LEVEL_TEXT = ("Deductive: `margin posted = requirement x multiplier x |position|
               "with nothing pending, and holdings_weights / context report position x liquidation price x multiplier / NLV.")
 EXPLANATION = LEVEL_TEXT
 NOT_DEDUCTIVE = ["induction over histories (A10): WF(B) is proved preserved per operation"]
+
+from shell import runtime as _runtime
+SHELL = [_runtime.contracts_at_run_time]
